@@ -146,11 +146,23 @@ def main():
     direct, dist = [], {}
     kf = {e["id"]: e for e in known_findings(PID) if e.get("status") == "known"}
     known_hits = {}
-    for i in range(n):
+    # corpus (minimised from seeded changes), asked first: a variable named twice with DIFFERENT hyperslabs, the second one starting
+    # beyond what the first one left (the same hyperslab twice is one hyperslab)
+    corpus = [(p_, ce_, a_) for ce_ in ["x[1],x[2]", "x[2],x[1]", "st.m[2:3],st.m[2]", "g[1:2][0:1],g[1]", "by[4:6],by[4]", "b[3:4],b[3]",
+                                        "f[1][0:1],f[1]", "x[1:2],x[1:2],x[1]", "q[1:2],q[1]", "x[2],x[2]",
+                                        # record ranges far beyond the data (start, stop, stride), lazy and array-backed sequences
+                                        "lz[0:99999999999999999999]", "lz[0:9223372036854775807]", "lz[99999999999999999999]",
+                                        "lz.k[0:1:99999999999999999999]", "q[0:99999999999999999999]",
+                                        "lz[0:99999999999999999999:99999999999999999999]", "lz[0:9223372036854775808:1]",
+                                        "lz.v[9223372036854775808]", "q[99999999999999999999]"]
+              for p_ in ("/d.dds", "/d.dods", "/d.asc") for a_ in ("plain", "gzip")]
+    for i in range(n + len(corpus)):
         valid = rng.random() < 0.4
         ce = valid_ce() if valid else faulty_ce()
         path = rng.choice(paths_ok) if (valid or rng.random() < 0.7) else rng.choice(paths_odd)
         appname = rng.choice(["plain", "plain", "gzip"])
+        if i < len(corpus):
+            (path, ce, appname), valid = corpus[i], False
         url = (path or "/") + ("?" + ce if ce else "")
         r.count((path, ce, appname))
         try:
